@@ -103,6 +103,9 @@ Definition fid_lifetime : bool :=
 Definition version_negotiation : bool :=
   let v := shape_of "Srv.version" in
   before "use:Conn.Msize" "set:Conn.Msize" v && negb (has "use:Srv.Msize" v)
+  (* the refusal of a too small msize comes first and tests the REQUESTED msize: a refused Tversion changes nothing *)
+  && before "use:Fcall.Msize" "call:RespondError" v && before "call:RespondError" "return" v
+  && before "return" "set:Conn.Msize" v && none_before "use:Conn.Msize" "call:RespondError" v
   && before "use:Srv.Dotu" "set:Conn.Dotu" v && none_before "use:Conn.Dotu" "set:Conn.Dotu" v.
 
 (* srv_srv.go process: a request cancelled before it started is answered and NOT executed *)
@@ -156,7 +159,9 @@ Definition handlers_check_before_they_change : bool :=
 (* srv_fcall.go flush: the Tflush is chained to its target inside the connection's critical section *)
 Definition flush_chains_under_conn_lock : bool :=
   let f := shape_of "Srv.flush" in
-  before "lock:Conn" "set:SrvReq.flushreq" f && before "set:SrvReq.flushreq" "unlock:Conn" f && before "lock:Conn" "set:SrvReq.flushnext" f.
+  before "lock:Conn" "set:SrvReq.flushreq" f && before "set:SrvReq.flushreq" "unlock:Conn" f && before "lock:Conn" "set:SrvReq.flushnext" f
+  (* the Rflush is packed before the Tflush is chained: a chained flush is answered later by a bare Respond *)
+  && before "call:PackRflush" "lock:Conn" f.
 
 (* Respond hands the reply over with a select on reqout / done (never a bare send); send keeps serving the queue
    after a write error; DecRef and Conn.close call the implementation after they released their mutex *)
@@ -180,16 +185,27 @@ Definition client_failure_paths : bool :=
 (* ufs.go, one fact per property *)
 Definition ufs_reads_positionally : bool :=                       (* C14: ReadAt / WriteAt, no shared file position *)
   (let r := shape_of "Ufs.Read" in has "call:ReadAt" r && negb (has "call:Seek" r))
-  && (let w := shape_of "Ufs.Write" in has "call:WriteAt" w && negb (has "call:Seek" w)).
+  && (let w := shape_of "Ufs.Write" in has "call:WriteAt" w && negb (has "call:Seek" w))
+  (* the end of a file is where ReadAt says it is: no length taken from a (path-based, possibly stale) stat *)
+  && negb (has "call:Size" (shape_of "Ufs.Read")).
 Definition ufs_dir_records : bool :=                              (* C15: records in the connection's dialect; both tables reset together *)
   let r := shape_of "Ufs.Read" in
   imm_before "use:Conn.Dotu" "call:PackDir" r && imm_before "set:ufsFid.dirents" "set:ufsFid.direntends" r.
 Definition ufs_looks_at_the_tree : bool :=                        (* C16: Lstat per walked element; Stat refreshes before it answers *)
   (let w := shape_of "Ufs.Walk" in has "call:Lstat" w && negb (has "call:Stat" w) && negb (has "call:stat" w))
-  && (let t := shape_of "Ufs.Stat" in before "call:stat" "use:ufsFid.st" t).
+  && (let t := shape_of "Ufs.Stat" in before "call:stat" "use:ufsFid.st" t)
+  (* the refresh looks the PATH up (Lstat), never the open descriptor: a symbolic link stays a link *)
+  && (let s := shape_of "ufsFid.stat" in has "call:Lstat" s && negb (has "call:Stat" s))
+  (* the directory bit is computed before (outside) the dialect-dependent part of the mode *)
+  && imm_before "call:uint32" "call:IsDir" (shape_of "dir2Npmode").
 Definition ufs_reports_errno : bool := has "call:As" (shape_of "toError").   (* C17 *)
 Definition ufs_attach_anchors_at_root : bool :=                   (* C18: Join(root, Join("/", aname)) *)
-  Nat.eqb (count_ev "call:Join" (shape_of "Ufs.Attach")) 2 && negb (has "call:Clean" (shape_of "Ufs.Attach")).
+  Nat.eqb (count_ev "call:Join" (shape_of "Ufs.Attach")) 2 && negb (has "call:Clean" (shape_of "Ufs.Attach"))
+  (* names: one test (any '/' anywhere) shared by Walk and Create; link targets: absolute refused, then every
+     component looked at, before the link is made (Ufs/Path.v symlink_ok) *)
+  && has "call:Contains" (shape_of "validName")
+  && has "call:validName" (shape_of "Ufs.Walk") && before "call:validName" "call:Symlink" (shape_of "Ufs.Create")
+  && (let c := shape_of "Ufs.Create" in before "call:IsAbs" "call:Split" c && before "call:Split" "call:Symlink" c).
 
 
 (* every copy in a receive loop goes into a buffer allocated just before (never inside the buffer that holds
@@ -220,3 +236,27 @@ Definition recv_loop_ok (r : list string) : bool :=
   buf_discipline "" "" false r && Nat.leb 2 (count_ev "call:copy" r) && Nat.eqb (count_ev "local:buf=slice:buf" r) 1.
 Definition recv_never_compacts : bool :=
   recv_loop_ok (shape_of "Conn.recv") && recv_loop_ok (shape_of "Clnt.recv").
+
+(* clnt_clnt.go ReqFree: a recycled request slot carries nothing of its previous call (links, reply, error) when it
+   goes back to the cache: Rpcnb appends it to the pending list without writing its next pointer *)
+Definition reqfree_clears_slot : bool :=
+  let f := shape_of "Clnt.ReqFree" in
+  before "set:Req.next" "send:reqchan" f && before "set:Req.prev" "send:reqchan" f
+  && before "set:Req.Rc" "send:reqchan" f && before "set:Req.Err" "send:reqchan" f && before "set:Req.Tc" "send:reqchan" f.
+
+(* clnt_clnt.go send: a failed Write closes the transport (that is what wakes the receive goroutine, which fails the calls) *)
+Definition clnt_send_closes_on_write_error : bool :=
+  let s := shape_of "Clnt.send" in then_ "call:Write" "call:Close" s && negb (then_ "call:Close" "call:Write" s).
+
+(* ufs.go Create, hard links: the reference FidGet took on the link target is dropped right after the link call,
+   whatever its outcome *)
+Definition ufs_link_drops_reference : bool :=
+  let c := shape_of "Ufs.Create" in before "call:FidGet" "call:Link" c && imm_before "call:Link" "call:DecRef" c.
+
+(* both receive loops compare the announced size of a frame with the negotiated msize (the next thing they do after
+   reading the size field), not with what happens to be left of the buffer: Recv/Recv.v check_msize *)
+Definition next_after (a : string) (l : list string) : string :=
+  match after_first a l with x :: _ => x | [] => "" end.
+Definition size_checked_against_msize : bool :=
+  String.eqb (next_after "call:Gint32" (shape_of "Conn.recv")) "use:Conn.Msize"
+  && String.eqb (next_after "call:Gint32" (shape_of "Clnt.recv")) "use:Clnt.Msize".
